@@ -173,6 +173,35 @@ func genClusterOptions(t *rapid.T, c *simkit.ClusterSpec) {
 	if pct(t, 15, "lowSpaceRatio") {
 		c.LowSpaceRatio = simkit.Pick(t, []float64{0.7, 0.9}, "lowSpaceRatioValue")
 	}
+	if pct(t, 25, "mixedCaseKeys") {
+		// pd treats store label KEYS case-insensitively (StoreInfo.GetLabelValue,
+		// MergeLabels): some stores spell zone/rack/host as Zone / ZONE / Host.
+		// A store never carries two keys that are equal ignoring case; keys of
+		// exclusive labels ('$..', engine, exclusive) stay as they are.
+		for i := range c.Stores {
+			if !pct(t, 50, "mixedCaseStore") {
+				continue
+			}
+			style := simkit.IntU(t, 0, 2, "keyStyle")
+			for j := range c.Stores[i].Labels {
+				k := c.Stores[i].Labels[j].Key
+				if k != "zone" && k != "rack" && k != "host" {
+					continue
+				}
+				switch style {
+				case 0:
+					k = strings.ToUpper(k[:1]) + k[1:]
+				case 1:
+					k = strings.ToUpper(k)
+				default: // only the first location label of the store
+					if j == 0 {
+						k = strings.ToUpper(k[:1]) + k[1:]
+					}
+				}
+				c.Stores[i].Labels[j].Key = k
+			}
+		}
+	}
 	if pct(t, 10, "tightSpace") {
 		// a cluster that is running full: most stores sit around the low-space
 		// threshold and around the documented small-store exception (< 30 regions
@@ -280,18 +309,27 @@ func genConstraint(t *rapid.T, cl *simkit.ClusterSpec) ConstraintSpec {
 		s := simkit.Pick(t, cl.Stores, "constraintStore")
 		if len(s.Labels) > 0 {
 			l := simkit.Pick(t, s.Labels, "constraintLabel")
+			lk := strings.ToLower(l.Key)
+			if lk == "zone" || lk == "rack" || lk == "host" {
+				// the rule may spell the key as this store does or in lower case
+				if !pct(t, 20, "constraintKeyAsStore") {
+					l.Key = lk
+				}
+			} else {
+				lk = l.Key
+			}
 			switch simkit.IntU(t, 0, 3, "constraintKind") {
 			case 0, 1:
 				vs := []string{l.Value}
 				if pct(t, 40, "secondValue") {
-					vs = append(vs, simkit.Pick(t, labelValues[l.Key], "otherValue"))
+					vs = append(vs, simkit.Pick(t, labelValues[lk], "otherValue"))
 				}
 				return ConstraintSpec{Key: l.Key, Op: "in", Values: vs}
 			case 2:
 				return ConstraintSpec{Key: l.Key, Op: "exists"}
 			default:
 				var vs []string
-				for _, v := range labelValues[l.Key] {
+				for _, v := range labelValues[lk] {
 					if v != l.Value {
 						vs = append(vs, v)
 					}
@@ -610,7 +648,7 @@ func (c *Case) isFresh(s *simkit.StoreSpec) bool {
 		return false
 	}
 	for _, l := range s.Labels {
-		if isExclusiveKey(l.Key) || l.Key == "specialUse" {
+		if isExclusiveKey(l.Key) || strings.EqualFold(l.Key, "specialUse") {
 			return false
 		}
 	}
